@@ -9,6 +9,8 @@ Checks: (1) no displaced point within the limits has a reference cost lower than
 (2) both backends agree within 0.05 sigma; (3) fixed parameters keep exactly their values, limited ones stay inside the closed
 interval; (4) iterative algorithm: a refit with the covariance frozen at the reported optimum does not move it (<= 0.1 sigma).
 """
+import math
+
 import numpy as np
 from hypothesis import strategies as st
 from scipy.optimize import minimize
@@ -94,8 +96,22 @@ def reference_minimum(ref, spec, free, fixed_vals):
 
 @st.composite
 def strat(draw, tier="quick"):
-    t = draw(st.sampled_from(["xy", "xy", "xy", "hist", "unbinned", "indexed"]))
-    if t == "xy":
+    t = draw(st.sampled_from(["xy", "xy", "xy", "hist", "unbinned", "indexed", "xy_counts"]))
+    if t == "xy_counts":
+        # counts that scatter like counts around an exponential decay, Gaussian approximation of the Poisson likelihood, and an x uncertainty: the cost needs the
+        # projected covariance, so the second (unfrozen) fit of the dynamic treatment applies to it exactly as to chi2
+        A, tau = draw(st.floats(60.0, 300.0)), draw(st.floats(2.0, 6.0))
+        n = draw(st.integers(7, 8))
+        x = [0.5 + 5.5 * i / (n - 1) for i in range(n)]
+        nz = draw(st.lists(st.floats(-1.3, 1.3), min_size=n, max_size=n))
+        y0 = [A * math.exp(-xi / tau) for xi in x]
+        y = [float(max(1.0, round(v + z * math.sqrt(v)))) for v, z in zip(y0, nz)]
+        sx = draw(st.floats(0.05, 0.15))
+        spec = {"type": "xy", "family": "expo", "order": ["A", "tau"], "x": x, "y": y, "truth": {"A": A, "tau": tau}, "cost": "gauss_approximation",
+                "sources": [{"name": "xs", "ref": "data", "axis": "x", "kind": "simple", "scalar": True, "err": [sx] * 8, "rho": 0.0, "relative": False, "enabled": True}],
+                "constraints": [], "start": {"A": A * (1 + 0.1 * draw(st.floats(-1, 1))), "tau": tau * (1 + 0.1 * draw(st.floats(-1, 1)))}, "fixed": {}, "limits": {},
+                "minimizer": "iminuit", "dea": "nonlinear", "sigma": math.sqrt(A), "y_scale": None}
+    elif t == "xy":
         spec = draw(S.xy_spec(families=S.NONLINEAR_FAMILIES, costs=("chi2",), n_sources=(1, 3), x_errors=True, model_sources=True, constraints=draw(st.booleans()),
                               fixed=True, limits=True, deas=("nonlinear", "nonlinear", "iterative"), min_points=7, model_only_first=0.0, noise_scale=0.7,
                               y_scales=(None, None, None, 1e-4, 1e3)))
